@@ -312,7 +312,7 @@ Proof.
   assert (Hnd2 : NoDup (map sp_id sps2)) by (rewrite (Forall2_quota_only_ids _ _ G2); exact Hnd1).
   assert (Hblocks : 0 <= o_babies_stolen o ->
                     forall i, 0 <= nth i [Z.quot (o_babies_stolen o) 5; Z.quot (o_babies_stolen o) 5; Z.quot (o_babies_stolen o) 10] 0).
-  { intros Hb i. destruct i as [|[|[|i]]]; cbn; try lia; apply Z.quot_pos; lia. }
+  { intros Hb i. destruct i as [|[|[|i]]]; cbn [nth]; try (apply Z.quot_pos; lia). destruct i; lia. }
   assert (HJ1 : 0 <= o_babies_stolen o -> first_distinct (p_species p) ->
                 (forall s, In s (p_species p) -> 0 <= sp_exp s /\ forall c, first_org (p_heap p) s = Ok c -> o_super c <= 0) ->
                 first_distinct sps2 /\ super_le_quota sps2 h2).
